@@ -4,51 +4,6 @@ Import ListNotations.
 Open Scope string_scope.
 Open Scope Z_scope.
 
-Section T.
-Variable MAX : Z.
-
-(* creation succeeds iff ... *)
-Lemma create_iff t p m pr : nth_error (procs t) p = Some pr -> 0 <= p_depth pr ->
-  (snd (step MAX t (Create p m)) = Done
-   <-> (m <> "fork" \/ p_depth pr = 0) /\ (MAX <= 0 \/ p_depth pr < MAX)).
-Proof.
-  intros Hp Hd. cbn [step]. rewrite Hp, check_max_depth_char. cbn [fst]. unfold check_fails.
-  destruct (String.eqb_spec m "fork") as [->|Hm];
-    destruct (Z.gtb_spec (p_depth pr) 0) as [G1|G1];
-    destruct (Z.ltb_spec 0 MAX) as [G2|G2];
-    destruct (Z.gtb_spec (p_depth pr + 1) MAX) as [G3|G3]; cbn; split;
-    try discriminate; try reflexivity;
-    try (intros _; split; [first [left; assumption | right; lia] | lia]);
-    try (intros [[F1|F1] [F2|F2]]; try congruence; lia).
-Qed.
-(* a refused creation changes nothing (no process is spawned) *)
-Lemma create_refused_frame t p m : snd (step MAX t (Create p m)) = RecursionError ->
-  fst (step MAX t (Create p m)) = t.
-Proof.
-  cbn [step]. destruct (nth_error (procs t) p); [|discriminate].
-  destruct (fst (check_max_depth m MAX (p_depth p0) [])); cbn; auto; discriminate.
-Qed.
-
-Definition Inv (t : tree) : Prop :=
-  (* depths: root 0, every other process one more than the creator of its executor *)
-  (forall i pr, nth_error (procs t) i = Some pr ->
-     match p_parent pr with
-     | None => p_depth pr = 0
-     | Some q => exists pq, nth_error (procs t) q = Some pq /\ p_depth pr = p_depth pq + 1
-     end /\ 0 <= p_depth pr)
-  (* executors exist only where the check passed *)
-  /\ (forall x ex, nth_error (execs t) x = Some ex ->
-        exists po, nth_error (procs t) (x_owner ex) = Some po
-                   /\ (MAX <= 0 \/ p_depth po < MAX)
-                   /\ (x_method ex <> "fork" \/ p_depth po = 0)).
-
-Lemma Inv_init : Inv init_tree.
-Proof.
-  split.
-  - intros [|[|i]] pr H; cbn in H; inversion H; subst; cbn; split; lia.
-  - intros [|x] ex H; cbn in H; discriminate.
-Qed.
-
 Lemma nth_error_snoc {A} (l : list A) a i x : nth_error (l ++ [a]) i = Some x ->
   nth_error l i = Some x \/ (i = List.length l /\ x = a).
 Proof.
@@ -61,30 +16,143 @@ Proof.
 Qed.
 Lemma nth_error_weaken {A} (l : list A) a i x : nth_error l i = Some x -> nth_error (l ++ [a]) i = Some x.
 Proof. intros H. rewrite nth_error_app1; [assumption|]. apply nth_error_Some. congruence. Qed.
+Lemma nth_set_nth_eq {A} (l : list A) i a x : nth_error l i = Some x -> nth_error (set_nth l i a) i = Some a.
+Proof. revert i. induction l as [|y l IH]; intros [|i] H; simpl in *; try discriminate; auto. Qed.
+Lemma nth_set_nth_neq {A} (l : list A) i j a : i <> j -> nth_error (set_nth l i a) j = nth_error l j.
+Proof. revert i j. induction l as [|y l IH]; intros [|i] [|j] H; simpl; auto; try congruence. Qed.
+
+Section T.
+Variable MAX : Z.
+
+Definition step' := step_with true true MAX.
+Lemma step_is t o : step MAX t o = step' t o.
+Proof. unfold step, step'. rewrite early_ok, guard_ok. reflexivity. Qed.
+
+Definition good_proc (t : tree) (pr : proc) : Prop :=
+  0 <= p_real pr /\
+  match p_parent pr with
+  | None => p_real pr = 0 /\ p_phase pr = Running
+  | Some q => exists pq, nth_error (procs t) q = Some pq /\ p_real pr = p_real pq + 1
+  end /\
+  p_ship pr = p_real pr /\
+  (p_phase pr = Loading -> p_var pr = 0) /\ (p_phase pr <> Loading -> p_var pr = p_real pr).
+Definition good_exec (t : tree) (ex : exec) : Prop :=
+  exists po, nth_error (procs t) (x_owner ex) = Some po /\
+    (x_loading ex = false -> (MAX <= 0 \/ p_real po < MAX) /\ (x_method ex <> "fork" \/ p_real po = 0)).
+Definition Inv (t : tree) : Prop :=
+  (forall i pr, nth_error (procs t) i = Some pr -> good_proc t pr) /\
+  (forall x ex, nth_error (execs t) x = Some ex -> good_exec t ex).
+
+Lemma Inv_init : Inv init_tree.
+Proof.
+  split.
+  - intros [|[|i]] pr H; cbn in H; inversion H; subst. unfold good_proc, root; cbn. repeat split; try lia; try congruence.
+  - intros [|x] ex H; cbn in H; discriminate.
+Qed.
+
+(* creation succeeds iff (not fork, or depth 0) and (unlimited or depth < MAX) -- in a process that has entered _process_worker *)
+Lemma create_iff t p m pr : Inv t -> nth_error (procs t) p = Some pr -> p_phase pr <> Loading ->
+  (snd (step MAX t (Create p m)) = Done
+   <-> (m <> "fork" \/ p_real pr = 0) /\ (MAX <= 0 \/ p_real pr < MAX)).
+Proof.
+  intros [Hp _] Ep Ph. destruct (Hp _ _ Ep) as (Hd & _ & _ & _ & Hv). specialize (Hv Ph).
+  rewrite step_is. unfold step'. cbn [step_with]. rewrite Ep, check_max_depth_char, Hv. cbn [fst]. unfold check_fails.
+  destruct (String.eqb_spec m "fork") as [->|Hm];
+    destruct (Z.gtb_spec (p_real pr) 0) as [G1|G1];
+    destruct (Z.ltb_spec 0 MAX) as [G2|G2];
+    destruct (Z.gtb_spec (p_real pr + 1) MAX) as [G3|G3]; cbn; split;
+    try discriminate; try reflexivity;
+    try (intros _; split; [first [left; assumption | right; lia] | lia]);
+    try (intros [[F1|F1] [F2|F2]]; try congruence; lia).
+Qed.
+(* a refused creation changes nothing (no process is spawned) *)
+Lemma create_refused_frame t p m : snd (step MAX t (Create p m)) = RecursionError ->
+  fst (step MAX t (Create p m)) = t.
+Proof.
+  rewrite step_is. unfold step'. cbn [step_with]. destruct (nth_error (procs t) p); [|discriminate].
+  destruct (fst (check_max_depth m MAX (p_var p0) [])); cbn; auto; discriminate.
+Qed.
+
+Lemma check_passes m d : check_fails m MAX d = false -> 0 <= d -> (m <> "fork" \/ d = 0) /\ (MAX <= 0 \/ d < MAX).
+Proof.
+  unfold check_fails. intros H Hd.
+  destruct (String.eqb_spec m "fork") as [->|Hm];
+    destruct (Z.gtb_spec d 0) as [G1|G1];
+    destruct (Z.ltb_spec 0 MAX) as [G2|G2];
+    destruct (Z.gtb_spec (d + 1) MAX) as [G3|G3]; cbn in H; try discriminate;
+    (split; [first [left; assumption | right; lia] | lia]).
+Qed.
+
+Lemma real_kept t i pr a : nth_error (procs t) i = Some pr -> p_real a = p_real pr ->
+  forall q pq, nth_error (procs t) q = Some pq -> exists pq', nth_error (set_nth (procs t) i a) q = Some pq' /\ p_real pq' = p_real pq.
+Proof.
+  intros Ei Hr q pq Eq. destruct (Nat.eq_dec i q) as [<-|N].
+  - exists a. split; [eapply nth_set_nth_eq; eauto|]. congruence.
+  - exists pq. split; [rewrite nth_set_nth_neq; assumption|reflexivity].
+Qed.
+
+Lemma Inv_update t i pr a : Inv t -> nth_error (procs t) i = Some pr ->
+  p_real a = p_real pr -> p_ship a = p_ship pr -> p_parent a = p_parent pr -> p_parent pr <> None ->
+  p_phase a <> Loading -> p_var a = p_ship pr ->
+  Inv {| procs := set_nth (procs t) i a; execs := execs t |}.
+Proof.
+  intros [Hp Hx] Ei Hr Hs Hpa Hnn Hph Hv. pose proof (real_kept t i pr a Ei Hr) as K.
+  assert (Gi : good_proc t pr) by (eapply Hp; eauto). destruct Gi as (G1 & G2 & G3 & G4 & G5).
+  split; cbn [procs execs].
+  - intros j pj Ej. destruct (Nat.eq_dec i j) as [<-|N].
+    + rewrite (nth_set_nth_eq _ _ _ _ Ei) in Ej. inversion Ej; subst pj. unfold good_proc. cbn [procs].
+      rewrite Hr, Hs, Hpa, Hv. repeat split; try assumption.
+      * destruct (p_parent pr) as [q|]; [|congruence]. destruct G2 as (pq & Eq & Rq). destruct (K _ _ Eq) as (pq' & Eq' & Rq'). exists pq'. split; [assumption|lia].
+      * intros F. congruence.
+      * intros _. exact G3.
+    + rewrite nth_set_nth_neq in Ej by assumption. destruct (Hp _ _ Ej) as (A1 & A2 & A3 & A4 & A5).
+      unfold good_proc. cbn [procs]. repeat split; try assumption.
+      destruct (p_parent pj) as [q|]; [|assumption]. destruct A2 as (pq & Eq & Rq). destruct (K _ _ Eq) as (pq' & Eq' & Rq'). exists pq'. split; [assumption|lia].
+  - intros x ex Ex. destruct (Hx _ _ Ex) as (po & Eo & C). destruct (K _ _ Eo) as (po' & Eo' & Ro'). exists po'. cbn [procs]. split; [assumption|].
+    rewrite Ro'. exact C.
+Qed.
+
+Lemma loading_has_parent t pr : good_proc t pr -> p_phase pr <> Running -> p_parent pr <> None.
+Proof. intros (_ & G2 & _) Ph F. rewrite F in G2. destruct G2 as [_ R]. congruence. Qed.
 
 Lemma Inv_step t o : Inv t -> Inv (fst (step MAX t o)).
 Proof.
-  intros [Hp Hx]. destruct o as [p m|x]; cbn [step].
-  - destruct (nth_error (procs t) p) as [pr|] eqn:Ep; [|split; assumption].
-    destruct (Hp _ _ Ep) as [_ Hd].
-    pose proof (create_iff t p m pr Ep Hd) as Hiff. cbn [step] in Hiff. rewrite Ep in Hiff.
-    destruct (fst (check_max_depth m MAX (p_depth pr) [])) eqn:Ec; cbn [fst snd] in *;
-      try (split; assumption).
-    all: split; cbn [procs execs]; [assumption|];
-      intros x ex Hex; apply nth_error_snoc in Hex; destruct Hex as [Hex|[_ ->]]; [eauto|];
-      cbn [x_owner x_method]; exists pr; split; [assumption|];
-      destruct (proj1 Hiff eq_refl) as [H1 H2]; auto.
-  - destruct (nth_error (execs t) x) as [ex|] eqn:Ex; [|split; assumption].
-    destruct (Hx _ _ Ex) as (po & Epo & Hmax & Hfork). rewrite Epo, child_depth_char. cbn [fst].
-    destruct (Hp _ _ Epo) as [_ Hd0].
+  intros I. pose proof I as [Hp Hx]. rewrite step_is. unfold step'. destruct o as [p m|x|i|i]; cbn [step_with].
+  - (* Create *)
+    destruct (nth_error (procs t) p) as [pr|] eqn:Ep; [|exact I].
+    rewrite check_max_depth_char. cbn [fst]. destruct (check_fails m MAX (p_var pr)) eqn:Cf; [exact I|]. cbn [fst].
+    split; cbn [procs execs]; [exact Hp|].
+    intros y ey Ey. apply nth_error_snoc in Ey. destruct Ey as [Ey|[_ ->]]; [apply Hx in Ey; exact Ey|].
+    exists pr. cbn [x_owner x_method x_loading]. split; [exact Ep|]. intros NL.
+    destruct (Hp _ _ Ep) as (G1 & _ & _ & _ & G5).
+    assert (Ph : p_phase pr <> Loading) by (destruct (p_phase pr); cbn in NL; congruence).
+    rewrite (G5 Ph) in Cf. destruct (check_passes _ _ Cf G1) as [A B]. split; assumption.
+  - (* Spawn *)
+    destruct (nth_error (execs t) x) as [ex|] eqn:Ex; [|exact I].
+    destruct (Hx _ _ Ex) as (po & Eo & C). rewrite Eo. cbn [andb].
+    destruct (is_loading (p_phase po)) eqn:L; [exact I|].
+    rewrite child_depth_char. cbn [fst].
+    destruct (Hp _ _ Eo) as (G1 & G2 & G3 & G4 & G5).
+    assert (Ph : p_phase po <> Loading) by (destruct (p_phase po); cbn in L; congruence).
     split; cbn [procs execs].
-    + intros i pr Hi. apply nth_error_snoc in Hi. destruct Hi as [Hi|[_ ->]].
-      * destruct (Hp _ _ Hi) as [H1 H2]. split; [|assumption].
-        destruct (p_parent pr) as [q|]; [|assumption]. destruct H1 as (pq & Eq & Hq).
-        exists pq. split; [apply nth_error_weaken; assumption|assumption].
-      * cbn [p_parent p_depth]. split; [|lia]. exists po. split; [apply nth_error_weaken; assumption|reflexivity].
-    + intros y ey Hy. destruct (Hx _ _ Hy) as (py & Ey & H1 & H2).
-      exists py. split; [apply nth_error_weaken; assumption|auto].
+    + intros j pj Ej. apply nth_error_snoc in Ej. destruct Ej as [Ej|[_ ->]].
+      * destruct (Hp _ _ Ej) as (A1 & A2 & A3 & A4 & A5). unfold good_proc. cbn [procs]. repeat split; try assumption.
+        destruct (p_parent pj) as [q|]; [|assumption]. destruct A2 as (pq & Eq & Rq). exists pq. split; [apply nth_error_weaken; assumption|assumption].
+      * unfold good_proc. cbn [procs p_real p_var p_ship p_phase p_parent]. repeat split; try lia.
+        -- exists po. split; [apply nth_error_weaken; assumption|reflexivity].
+        -- rewrite (G5 Ph). reflexivity.
+        -- intros F. congruence.
+    + intros y ey Ey. destruct (Hx _ _ Ey) as (py & Epy & Cy). exists py. split; [apply nth_error_weaken; assumption|exact Cy].
+  - (* Begin *)
+    destruct (nth_error (procs t) i) as [pr|] eqn:Ei; [|exact I].
+    destruct (p_phase pr) eqn:Ph; try exact I. cbn [fst].
+    eapply Inv_update; eauto; cbn [p_real p_ship p_parent p_phase p_var]; try reflexivity; try discriminate.
+    apply (loading_has_parent t pr); [eapply Hp; eauto | congruence].
+  - (* Install *)
+    destruct (nth_error (procs t) i) as [pr|] eqn:Ei; [|exact I].
+    destruct (p_phase pr) eqn:Ph; try exact I. cbn [fst].
+    eapply Inv_update; eauto; cbn [p_real p_ship p_parent p_phase p_var]; try reflexivity; try discriminate.
+    apply (loading_has_parent t pr); [eapply Hp; eauto | congruence].
 Qed.
 
 Lemma Inv_run ops : Inv (run MAX ops).
@@ -94,27 +162,77 @@ Proof.
   apply IH. apply Inv_step. assumption.
 Qed.
 
-(* no process deeper than MAX, whatever the history of creations, respawns, resizes, reuse *)
-Lemma depth_bound ops i pr : 1 <= MAX -> nth_error (procs (run MAX ops)) i = Some pr -> p_depth pr <= MAX.
+(* what a worker sees once it has entered _process_worker: exactly one more than the real depth of the process that created its
+   executor -- whatever the history of creations, respawns, resizes, reuse *)
+Lemma worker_sees_parent_plus_one ops i pr q : nth_error (procs (run MAX ops)) i = Some pr -> p_parent pr = Some q -> p_phase pr <> Loading ->
+  exists pq, nth_error (procs (run MAX ops)) q = Some pq /\ p_var pr = p_real pq + 1 /\ p_real pr = p_real pq + 1.
 Proof.
-  intros HM Hi. destruct (Inv_run ops) as [Hp Hx].
-  (* a worker's parent owns an executor: strengthen through the parent relation *)
-  assert (Hs : forall t, Inv t ->
-            (forall j pj, nth_error (procs t) j = Some pj -> p_depth pj <= MAX) ->
-            forall o, forall j pj, nth_error (procs (fst (step MAX t o))) j = Some pj -> p_depth pj <= MAX).
-  { intros t [Hp' Hx'] Hb o j pj. destruct o as [p m|x]; cbn [step].
-    - destruct (nth_error (procs t) p); [|apply Hb].
-      destruct (fst (check_max_depth m MAX (p_depth p0) [])); cbn [fst procs]; apply Hb.
-    - destruct (nth_error (execs t) x) as [ex|] eqn:Ex; [|apply Hb].
-      destruct (Hx' _ _ Ex) as (po & Epo & Hmax & _). rewrite Epo, child_depth_char. cbn [fst procs].
-      intros Hj. apply nth_error_snoc in Hj. destruct Hj as [Hj|[_ ->]]; [eapply Hb; eauto|].
-      cbn [p_depth]. lia. }
-  revert i pr Hi. unfold run.
-  assert (G : forall ops t, Inv t -> (forall j pj, nth_error (procs t) j = Some pj -> p_depth pj <= MAX) ->
-              forall j pj, nth_error (procs (fold_left (fun t o => fst (step MAX t o)) ops t)) j = Some pj ->
-                           p_depth pj <= MAX).
-  { clear ops Hp Hx. induction ops as [|o ops IH]; intros t Ht Hb; cbn [fold_left]; [exact Hb|].
-    apply IH; [apply Inv_step; assumption|]. apply Hs; assumption. }
-  apply G; [apply Inv_init|]. intros [|[|j]] pj H; cbn in H; inversion H; subst; cbn; lia.
+  intros Ei Pa Ph. destruct (Inv_run ops) as [Hp _]. destruct (Hp _ _ Ei) as (_ & G2 & _ & _ & G5). rewrite Pa in G2.
+  destruct G2 as (pq & Eq & R). exists pq. rewrite (G5 Ph). auto.
+Qed.
+
+Definition some_exec_made_while_loading (t : tree) : Prop := exists x ex, nth_error (execs t) x = Some ex /\ x_loading ex = true.
+Definition Bounded (t : tree) : Prop := some_exec_made_while_loading t \/ forall j pj, nth_error (procs t) j = Some pj -> p_real pj <= MAX.
+
+Lemma Bounded_step t o : 1 <= MAX -> Inv t -> Bounded t -> Bounded (fst (step MAX t o)).
+Proof.
+  intros HM I B. pose proof I as [Hp Hx]. rewrite step_is. unfold step'. destruct o as [p m|x|i|i]; cbn [step_with].
+  - destruct (nth_error (procs t) p) as [pr|] eqn:Ep; [|exact B].
+    destruct (fst (check_max_depth m MAX (p_var pr) [])); cbn [fst]; try exact B;
+      (destruct B as [(y & ey & Ey & Ly)|B]; [left; exists y, ey; split; [apply nth_error_weaken; assumption|assumption] | ]);
+      (destruct (is_loading (p_phase pr)) eqn:L;
+       [left; exists (List.length (execs t)); eexists; cbn [execs]; split; [rewrite nth_error_app2, Nat.sub_diag by lia; reflexivity| cbn; first [reflexivity | exact L]]
+       | right; exact B]).
+  - destruct (nth_error (execs t) x) as [ex|] eqn:Ex; [|exact B].
+    destruct (Hx _ _ Ex) as (po & Eo & C). rewrite Eo. cbn [andb].
+    destruct (is_loading (p_phase po)) eqn:L; [exact B|]. rewrite child_depth_char. cbn [fst].
+    destruct B as [(y & ey & Ey & Ly)|B]; [left; exists y, ey; split; assumption|].
+    destruct (x_loading ex) eqn:XL; [left; exists x, ex; split; assumption|].
+    right. cbn [procs]. intros j pj Ej. apply nth_error_snoc in Ej. destruct Ej as [Ej|[_ ->]]; [eapply B; eauto|].
+    cbn [p_real]. destruct (C eq_refl) as [[C1|C1] _]; lia.
+  - destruct (nth_error (procs t) i) as [pr|] eqn:Ei; [|exact B].
+    destruct (p_phase pr); try exact B. cbn [fst].
+    destruct B as [B|B]; [left; exact B|]. right. cbn [procs]. intros j pj Ej.
+    destruct (Nat.eq_dec i j) as [<-|N].
+    + rewrite (nth_set_nth_eq _ _ _ _ Ei) in Ej. inversion Ej; subst pj. cbn [p_real]. eapply B; eauto.
+    + rewrite nth_set_nth_neq in Ej by assumption. eapply B; eauto.
+  - destruct (nth_error (procs t) i) as [pr|] eqn:Ei; [|exact B].
+    destruct (p_phase pr); try exact B. cbn [fst].
+    destruct B as [B|B]; [left; exact B|]. right. cbn [procs]. intros j pj Ej.
+    destruct (Nat.eq_dec i j) as [<-|N].
+    + rewrite (nth_set_nth_eq _ _ _ _ Ei) in Ej. inversion Ej; subst pj. cbn [p_real]. eapply B; eauto.
+    + rewrite nth_set_nth_neq in Ej by assumption. eapply B; eauto.
+Qed.
+
+(* no process ever runs deeper than MAX, unless an executor was constructed by a worker that was still loading its arguments *)
+Lemma depth_bound ops i pr : 1 <= MAX -> nth_error (procs (run MAX ops)) i = Some pr ->
+  p_real pr <= MAX \/ some_exec_made_while_loading (run MAX ops).
+Proof.
+  intros HM Ei.
+  assert (G : forall ops t, Inv t -> Bounded t -> Bounded (fold_left (fun t o => fst (step MAX t o)) ops t)).
+  { clear Ei ops i pr. intros ops. induction ops as [|o ops IH]; intros t I B; cbn [fold_left]; [exact B|].
+    apply IH; [apply Inv_step; assumption|]. apply Bounded_step; assumption. }
+  assert (B0 : Bounded init_tree).
+  { right. intros [|[|j]] pj H; cbn in H; inversion H; subst; cbn; lia. }
+  destruct (G ops init_tree Inv_init B0) as [B|B]; [right; exact B|left; eapply B; exact Ei].
 Qed.
 End T.
+
+(* D2 (known finding): a worker that constructs an executor while its own arguments are still being unpickled is checked against
+   the module default 0, not against its depth: with MAX = 1 a process runs at depth 2 *)
+Example loading_window_escapes_the_bound :
+  let t := run 1 [Create 0 "loky"; Spawn 0; Create 1 "loky"; Begin 1; Install 1; Spawn 1] in
+  map p_real (procs t) = [0; 1; 2] /\ map x_loading (execs t) = [false; true].
+Proof. vm_compute. split; reflexivity. Qed.
+
+(* D1 (fixed by /repo's "fix: install the nesting depth before the initializer"): with the depth installed only after the
+   initializer, an executor built and used by the initializer is accepted at depth 1 >= MAX = 1 and its worker is told it runs at
+   depth 1 although it runs at depth 2 *)
+Example initializer_window_with_late_install :
+  let t := fold_left (fun t o => fst (step_with false true 1 t o)) [Create 0 "loky"; Spawn 0; Begin 1; Create 1 "loky"; Spawn 1; Begin 2; Install 2] init_tree in
+  map p_real (procs t) = [0; 1; 2] /\ map p_var (procs t) = [0; 0; 1] /\ map x_loading (execs t) = [false; false].
+Proof. vm_compute. repeat split; reflexivity. Qed.
+Example initializer_window_with_early_install :
+  let t := run 1 [Create 0 "loky"; Spawn 0; Begin 1; Create 1 "loky"] in
+  List.length (execs t) = 1%nat /\ snd (step 1 t (Create 1 "loky")) = RecursionError.
+Proof. vm_compute. split; reflexivity. Qed.
